@@ -112,6 +112,44 @@ func transformOp(name string, f func(s *astisub.Subtitles)) Op {
 	}}
 }
 
+// failing destinations and sources: calls that end in an error must not leave anything behind either
+type failAfter struct{ n int }
+
+func (w *failAfter) Write(p []byte) (int, error) {
+	if w.n -= len(p); w.n < 0 {
+		return 0, fmt.Errorf("c20: destination full")
+	}
+	return len(p), nil
+}
+
+type failingReader struct {
+	data []byte
+	pos  int
+}
+
+func (r *failingReader) Read(p []byte) (int, error) {
+	if r.pos >= len(r.data) {
+		return 0, fmt.Errorf("c20: source lost")
+	}
+	n := copy(p, r.data[r.pos:])
+	r.pos += n
+	return n, nil
+}
+
+func failingWriteOp(format string) Op {
+	return Op{"write-" + format + "-failing", func(string) string {
+		err, pan := corpus.Write(format, richList("fw"), &failAfter{n: 40})
+		return fmt.Sprint(err != nil, pan)
+	}}
+}
+
+func failingReadOp(name, format string, data []byte) Op {
+	return Op{name, func(string) string {
+		_, err, pan := corpus.Read(format, &failingReader{data: append([]byte{}, data[:len(data)*2/3]...)})
+		return fmt.Sprint(err != nil, pan)
+	}}
+}
+
 var extraOps []Op
 
 // RegisterOp lets other packages add operations (transport-stream reads built by the teletext encoder).
@@ -242,5 +280,11 @@ func Ops() []Op {
 			return string(b)
 		}},
 	}
+	for _, f := range corpus.WriteFormats {
+		ops = append(ops, failingWriteOp(f))
+	}
+	ops = append(ops, failingReadOp("read-srt-failing", "srt", docData("srt-crlf")), failingReadOp("read-vtt-failing", "vtt", docData("vtt-full")),
+		failingReadOp("read-ssa-failing", "ssa", docData("ssa-small")), failingReadOp("read-ttml-failing", "ttml", docData("ttml-small")),
+		failingReadOp("read-stl-failing", "stl", stlDoc("0", "éàü Ω")))
 	return append(ops, extraOps...)
 }
